@@ -76,12 +76,13 @@ def run(chk, repo, tier):
         fw, wp, _ = analyse(repo, key)
         okz = oki = False
         for p in returns(wp):
-            lps = [lp for lp in p.state.loops if lp['func'] == fw.key]
-            if lps:
-                pre = lps[0]['pre'].get('out')
+            ins = p.calls('field.insert')
+            from .common import loop_accumulator
+            lp, var = loop_accumulator(p, ins[0].bound.get('out')) if ins else (None, None)
+            if lp is not None:
+                pre = lp['pre'].get(var)
                 pa = pre.single_atom() if isinstance(pre, Poly) else None
                 okz = pa is not None and is_app(pa, 'zeros')
-            ins = p.calls('field.insert')
             oki = len(ins) == 1 and ins[0].bound.get('intensity') == TRUE and ins[0].bound.get('weight') == C(1)
         chk.ob('C05-c', 'R-sign', key, 'starts from zeros', okz, '', fw.loc())
         chk.ob('C05-c', 'R-sign', key, 'adds only intensities with weight 1', oki, '', fw.loc())
